@@ -9,6 +9,7 @@
 //   assign h s | massign h s         copy-/move-assign (h == s and aliases allowed; converting too)
 //   swap h s | fswap h s             member / free swap (same handle type)
 //   reset h | unify h | dtor h
+//   objassign h s                    *h = *s  (ReferenceCounter::operator= must leave both counts alone)
 //   use h | unique h | valid h | empty h | eq h s | get h     queries (use: h must be non-empty)
 // answer: "<ret> ; h=[..] ; o=[..]"  (per handle: - / null / o<id>; per object: its
 // reference_count(), or X<k> once it has been destroyed k times).
@@ -165,16 +166,17 @@ static void do_seq(const std::vector<std::string>& t, const std::string& line) {
         if (t.size() >= 2) h = std::stoi(t[1]);
         if (t.size() >= 3) s = std::stoi(t[2]);
     } catch (...) { vh::answer("bad-op"); return; }
-    bool two = (op == "raw" || op == "copy" || op == "move" || op == "assign" || op == "massign" || op == "swap" || op == "fswap" || op == "eq");
+    bool two = (op == "objassign" || op == "raw" || op == "copy" || op == "move" || op == "assign" || op == "massign" || op == "swap" || op == "fswap" || op == "eq");
     bool ctor = (op == "make" || op == "null" || op == "raw" || op == "copy" || op == "move");
     bool ok = h >= 0 && h < 6 && t.size() == (two ? 3u : 2u);
     if (ok && two) ok = exists(s);
     if (ok && ctor) ok = !exists(h);
     if (ok && !ctor) ok = exists(h);
     // a Derived handle cannot be made from a Base handle; swap/eq need the same handle type
-    if (ok && two && !is_b(h) && is_b(s)) ok = false;
+    if (ok && two && op != "objassign" && !is_b(h) && is_b(s)) ok = false;
     if (ok && (op == "swap" || op == "fswap" || op == "eq" || op == "raw") && is_b(h) != is_b(s)) ok = false;
     if (ok && op == "use") ok = raw_of(h) != nullptr;
+    if (ok && op == "objassign") ok = raw_of(h) != nullptr && raw_of(s) != nullptr;
     if (!ok) { vh::answer("bad-op"); return; }
     std::string ret = "ok";
 #define H_D (*hd[h])
@@ -198,6 +200,14 @@ static void do_seq(const std::vector<std::string>& t, const std::string& line) {
     else if (op == "fswap") { if (is_b(h)) tlx::swap(H_B, S_B); else tlx::swap(H_D, S_D); }
     else if (op == "reset") { if (is_b(h)) H_B.reset(); else H_D.reset(); }
     else if (op == "unify") { if (is_b(h)) H_B.unify(); else H_D.unify(); }
+    else if (op == "objassign") {
+        // assign the managed objects (Base part when the handle types differ); ids stay with the objects
+        Base& dst = is_b(h) ? *H_B : static_cast<Base&>(*H_D);
+        const Base& src = is_b(s) ? *S_B : static_cast<const Base&>(*S_D);
+        int keep = dst.id;
+        dst = src;
+        dst.id = keep;
+    }
     else if (op == "dtor") { if (is_b(h)) { H_B.~BPtr(); hb[h - 4] = nullptr; } else { H_D.~DPtr(); hd[h] = nullptr; } }
     else if (op == "use") ret = std::to_string(is_b(h) ? H_B.use_count() : H_D.use_count());
     else if (op == "unique") ret = (is_b(h) ? H_B.unique() : H_D.unique()) ? "1" : "0";
